@@ -429,6 +429,10 @@ theorem columns_commute (p : Precursor) (dests : List Str) :
 /-- **jsondata_commutes**: for a precursor `p` (one unit and one array per column name) and the Table built
     from it (destinations as the set iterates them), `make_table_json_data` and `table_to_json_data` return
     equal JsonData; the "columns" member is identical including its order and lists every column.
+    The hypotheses are shape facts of every precursor a successful read delivers — `hnd`: destinations are dict
+    keys (`destinations_nodup`); `hc`: `finish` pads the columns to one per name; `hn`: column names are dict keys
+    (`_fix_duplicate_column_names`); `hperm`: the Table holds the destinations as a set — stated as hypotheses
+    because `Reader.layout` is not inverted here.
     (`hu`: a unit row shorter than the name row is an input error — /repo commit 7179188, `Reader.layout` —
     so every precursor a reader produces has one unit per name; before that fix a table without rows slipped
     through as a Table whose column register was shorter than its frame, on which `table_to_json_data` raised
@@ -488,6 +492,17 @@ theorem jsondata_commutes (p : Precursor) (dests : List Str)
         .ok (.obj ((tableOf p dests).columns.map C08.Spec.colJson)) := rfl
     rw [this]
     exact hkeys'
+
+/-- the destinations of every precursor are pairwise distinct (`hnd` of `jsondata_commutes` holds for whatever
+    `make_table_json_precursor` reads from the destination cell: dict keys) -/
+theorem dedup_is_nodup (l : List Str) : (dedup l).Nodup := by
+  induction l with
+  | nil => simp [dedup]
+  | cons x xs ih =>
+    simp only [dedup, List.nodup_cons]
+    exact ⟨by simp, ih.filter _⟩
+
+theorem destinations_nodup (c : Cell) : (destinations c).Nodup := dedup_is_nodup _
 
 /-- non-vacuity of `jsondata_commutes`: the precursor of a two-column table with a missing number; the
     destination set iterates in the other order -/
